@@ -131,6 +131,12 @@ def _splice(f, bi, callee, spread=False):
         for k in range(callee['argc'] - 1):
             ty = callee['locals'][2 + k]['ty']
             pl = {'l': loff + 2 + k, 'p': [], 'ty': ty}
+            if t.get('spread_ops') and k < len(t['spread_ops']):
+                # a call built by a lowering, which knows the operands packed into the tuple: no detour through the tuple
+                blk['stmts'].append({'k': 'assign', 'place': pl, 'rv': {'k': 'use', 'op': copy.deepcopy(t['spread_ops'][k])}, 'line': line})
+                blk['stmts'] = [s_ for s_ in blk['stmts'] if not (s_['k'] == 'assign' and not s_['place']['p'] and s_['place']['l'] == tup['place']['l']
+                                                                 and s_['rv']['k'] == 'aggregate')]
+                continue
             src = copy.deepcopy(tup['place'])
             src['p'] = list(src['p']) + [{'k': 'field', 'i': k, 'name': str(k), 'ty': ty}]
             src['ty'] = ty
@@ -388,6 +394,173 @@ def lower_map_transpose(j, baseline, skip=()):
     return n
 
 
+CONSUMERS = {'std::iter::Iterator::fold': ('fold', False), 'std::iter::Iterator::try_fold': ('try_fold', True),
+             'std::iter::Iterator::for_each': ('for_each', False), 'std::iter::Iterator::try_for_each': ('try_for_each', True)}
+
+
+def _generic_args(ty):
+    """('std::result::Result', ['A', 'B']) of `std::result::Result<A, B>`"""
+    i = ty.find('<')
+    if i < 0 or not ty.endswith('>'):
+        return ty, []
+    head, inner = ty[:i], ty[i + 1:-1]
+    out, depth, cur = [], 0, ''
+    for ch in inner:
+        if ch in '<([':
+            depth += 1
+        elif ch in '>)]':
+            depth -= 1
+        if ch == ',' and depth == 0:
+            out.append(cur.strip())
+            cur = ''
+        else:
+            cur += ch
+    if cur.strip():
+        out.append(cur.strip())
+    return head, out
+
+
+def lower_consumers(j, baseline, skip=()):
+    """`it.fold(init, closure)`, `it.try_fold(init, closure)`, `it.for_each(closure)`, `it.try_for_each(closure)` with a closure written
+    at the call become the loop they abbreviate:
+        acc = init; loop { match it.next() { None => break, Some(x) => acc = closure(acc, x) [or leave with the failure] } }
+    with the closure called directly (and then spliced like any directly-called closure).  What the closure does per element is then read
+    as the body of a loop over the iterator, its failure is a guard of the caller, its accumulator a loop-carried value."""
+    fns = {f['path']: f for f in j['fns'] if f['label'] == 'fn'}
+    n = 0
+    for f in j['fns']:
+        if f['label'] != 'fn' or f['path'].split('::{closure')[0] in skip:
+            continue
+        closure_of = {}
+        for b in f['blocks']:
+            for s_ in b['stmts']:
+                if s_['k'] == 'assign' and not s_['place']['p'] and s_['rv']['k'] == 'aggregate' and s_['rv']['kind'].get('a') == 'closure':
+                    closure_of[s_['place']['l']] = s_['rv']['kind']['path']
+        for b in list(f['blocks']):
+            t = b['term']
+            if t['k'] != 'call' or b.get('cleanup') or t['func'].get('def') not in CONSUMERS or t.get('target') is None or t['dest']['p']:
+                continue
+            kind, fallible = CONSUMERS[t['func']['def']]
+            has_acc = kind in ('fold', 'try_fold')
+            if len(t['args']) != (3 if has_acc else 2):
+                continue
+            it, cl = t['args'][0], t['args'][-1]
+            if it.get('k') not in ('move', 'copy') or it['place']['p'] or cl.get('k') not in ('move', 'copy') or cl['place']['p'] or cl['place']['l'] not in closure_of:
+                continue
+            cp = closure_of[cl['place']['l']]
+            cb = fns.get(cp)
+            if cb is None or cb.get('kind') != 'Closure' or cb['argc'] != (3 if has_acc else 2):
+                continue
+            tself = t['func'].get('gargs', [None])[0]
+            tit = it['place']['ty']
+            by_ref = tit.startswith('&mut ')
+            titem = cb['locals'][3 if has_acc else 2]['ty']
+            tacc = cb['locals'][2]['ty'] if has_acc else None
+            tres = cb['locals'][0]['ty']
+            tdest = t['dest']['ty']
+            tcl = cl['place']['ty']
+            head, rargs = _generic_args(tres)
+            if fallible:
+                if head == 'std::result::Result' and len(rargs) == 2:
+                    okv, oki, badv, badi, tbad = 'Ok', 0, 'Err', 1, rargs[1]
+                elif head == 'std::option::Option' and len(rargs) == 1:
+                    okv, oki, badv, badi, tbad = 'Some', 1, 'None', 0, None
+                else:
+                    continue
+                tpay = rargs[0]
+            line = t.get('span', {}).get('l0', 0)
+            span = t.get('span')
+            f.setdefault('orig_nlocals', len(f['locals']))
+
+            def newlocal(ty):
+                f['locals'].append({'i': len(f['locals']), 'ty': ty, 'name': None, 'mut': True})
+                return len(f['locals']) - 1
+
+            def pl(l, ty):
+                return {'l': l, 'p': [], 'ty': ty}
+
+            def adt(path, variant, vidx, fields, ops):
+                return {'k': 'aggregate', 'kind': {'a': 'adt', 'path': path, 'variant': variant, 'vidx': vidx, 'fields': fields, 'union_field': -1}, 'ops': ops}
+
+            def asg(place, rv):
+                return {'k': 'assign', 'place': place, 'rv': rv, 'line': line}
+            dest = copy.deepcopy(t['dest'])
+            cont = t['target']
+            unwind = t.get('unwind', 'Continue')
+            topt = 'std::option::Option<%s>' % titem
+            ttup = '(%s, %s)' % (tacc, titem) if has_acc else '(%s,)' % titem
+            tmi = tit if by_ref else '&mut %s' % tit
+            lnx, ld, litem, ltup, lr, lcr = newlocal(topt), newlocal('isize'), newlocal(titem), newlocal(ttup), newlocal(tres), newlocal('&mut %s' % tcl)
+            lacc = newlocal(tacc) if has_acc else None
+            nbk = len(f['blocks'])
+            b_head, b_sw, b_body, b_after, b_done, b_un = nbk, nbk + 1, nbk + 2, nbk + 3, nbk + 4, nbk + 5
+            b_ok, b_bad = nbk + 6, nbk + 7
+            if by_ref:
+                lit = it['place']['l']
+                head_stmts = []
+                next_arg = {'k': 'copy', 'place': pl(lit, tit)}
+            else:
+                lit = newlocal(tit)
+                lref = newlocal(tmi)
+                b['stmts'].append(asg(pl(lit, tit), {'k': 'use', 'op': copy.deepcopy(it)}))
+                head_stmts = [asg(pl(lref, tmi), {'k': 'ref', 'mut': True, 'place': pl(lit, tit)})]
+                next_arg = {'k': 'move', 'place': pl(lref, tmi)}
+            if has_acc:
+                b['stmts'].append(asg(pl(lacc, tacc), {'k': 'use', 'op': copy.deepcopy(t['args'][1])}))
+            b['term'] = {'k': 'goto', 'target': b_head}
+            nfunc = {'def': 'std::iter::Iterator::next', 'krate': 'core', 'local': False, 'gargs': [tself or tit], 'trait': 'std::iter::Iterator',
+                     'res': 'std::iter::Iterator::next', 'res_krate': 'core', 'res_local': False, 'res_kind': 'Item'}
+            f['blocks'].append({'i': b_head, 'cleanup': False, 'stmts': head_stmts,
+                                'term': {'k': 'call', 'func': nfunc, 'args': [next_arg], 'dest': pl(lnx, topt), 'target': b_sw, 'unwind': unwind, 'span': span}})
+            f['blocks'].append({'i': b_sw, 'cleanup': False, 'stmts': [asg(pl(ld, 'isize'), {'k': 'discr', 'place': pl(lnx, topt)})],
+                                'term': {'k': 'switch', 'discr': {'k': 'move', 'place': pl(ld, 'isize')}, 'arms': [['0', b_done], ['1', b_body]], 'otherwise': b_un, 'span': span}})
+            pay = {'l': lnx, 'p': [{'k': 'downcast', 'variant': 'Some', 'i': 1}, {'k': 'field', 'i': 0, 'name': '0', 'ty': titem}], 'ty': titem}
+            ops = ([{'k': 'move', 'place': pl(lacc, tacc)}] if has_acc else []) + [{'k': 'move', 'place': pl(litem, titem)}]
+            cfunc = {'def': 'std::ops::FnMut::call_mut', 'krate': 'core', 'local': False, 'gargs': [], 'trait': 'std::ops::FnMut', 'res': cp,
+                     'res_krate': '', 'res_local': True, 'res_kind': 'Item'}
+            f['blocks'].append({'i': b_body, 'cleanup': False, 'stmts': [
+                asg(pl(litem, titem), {'k': 'use', 'op': {'k': 'move', 'place': pay}}),
+                asg(pl(ltup, ttup), {'k': 'aggregate', 'kind': {'a': 'tuple'}, 'ops': ops}),
+                asg(pl(lcr, '&mut %s' % tcl), {'k': 'ref', 'mut': True, 'place': pl(cl['place']['l'], tcl)})],
+                'term': {'k': 'call', 'func': cfunc, 'args': [{'k': 'move', 'place': pl(lcr, '&mut %s' % tcl)}, {'k': 'move', 'place': pl(ltup, ttup)}],
+                         'dest': pl(lr, tres), 'target': b_after, 'unwind': unwind, 'span': span, 'spread_ops': copy.deepcopy(ops)}})
+            if not fallible:
+                after = [asg(pl(lacc, tacc), {'k': 'use', 'op': {'k': 'move', 'place': pl(lr, tres)}})] if has_acc else []
+                f['blocks'].append({'i': b_after, 'cleanup': False, 'stmts': after, 'term': {'k': 'goto', 'target': b_head}})
+                done = [asg(dest, {'k': 'use', 'op': {'k': 'move', 'place': pl(lacc, tacc)}})] if has_acc else [asg(dest, {'k': 'aggregate', 'kind': {'a': 'tuple'}, 'ops': []})]
+                f['blocks'].append({'i': b_done, 'cleanup': False, 'stmts': done, 'term': {'k': 'goto', 'target': cont}})
+                f['blocks'].append({'i': b_un, 'cleanup': False, 'stmts': [], 'term': {'k': 'unreachable'}})
+            else:
+                ld2 = newlocal('isize')
+                f['blocks'].append({'i': b_after, 'cleanup': False, 'stmts': [asg(pl(ld2, 'isize'), {'k': 'discr', 'place': pl(lr, tres)})],
+                                    'term': {'k': 'switch', 'discr': {'k': 'move', 'place': pl(ld2, 'isize')}, 'arms': [[str(oki), b_ok], [str(badi), b_bad]], 'otherwise': b_un, 'span': span}})
+                hd = 'std::result::Result' if okv == 'Ok' else 'std::option::Option'
+                if has_acc:
+                    done = [asg(dest, adt(hd, okv, oki, ['0'], [{'k': 'move', 'place': pl(lacc, tacc)}]))]
+                else:
+                    lu = newlocal('()')
+                    done = [asg(pl(lu, '()'), {'k': 'aggregate', 'kind': {'a': 'tuple'}, 'ops': []}), asg(dest, adt(hd, okv, oki, ['0'], [{'k': 'move', 'place': pl(lu, '()')}]))]
+                f['blocks'].append({'i': b_done, 'cleanup': False, 'stmts': done, 'term': {'k': 'goto', 'target': cont}})
+                f['blocks'].append({'i': b_un, 'cleanup': False, 'stmts': [], 'term': {'k': 'unreachable'}})
+                okp = {'l': lr, 'p': [{'k': 'downcast', 'variant': okv, 'i': oki}, {'k': 'field', 'i': 0, 'name': '0', 'ty': tpay}], 'ty': tpay}
+                okst = [asg(pl(lacc, tacc), {'k': 'use', 'op': {'k': 'move', 'place': okp}})] if has_acc else []
+                f['blocks'].append({'i': b_ok, 'cleanup': False, 'stmts': okst, 'term': {'k': 'goto', 'target': b_head}})
+                if tbad is not None:
+                    le = newlocal(tbad)
+                    errp = {'l': lr, 'p': [{'k': 'downcast', 'variant': 'Err', 'i': 1}, {'k': 'field', 'i': 0, 'name': '0', 'ty': tbad}], 'ty': tbad}
+                    bad = [asg(pl(le, tbad), {'k': 'use', 'op': {'k': 'move', 'place': errp}}), asg(copy.deepcopy(dest), adt(hd, 'Err', 1, ['0'], [{'k': 'move', 'place': pl(le, tbad)}]))]
+                else:
+                    bad = [asg(copy.deepcopy(dest), adt(hd, 'None', 0, [], []))]
+                f['blocks'].append({'i': b_bad, 'cleanup': False, 'stmts': bad, 'term': {'k': 'goto', 'target': cont}})
+                rl = f.setdefault('ret_locals', [])
+                for l_ in (lr, dest['l']):
+                    if l_ not in rl:
+                        rl.append(l_)
+            f.setdefault('lowered_consumers', []).append(cp)
+            n += 1
+    return n
+
+
 def inline_new_helpers(j):
     """returns {'spliced': {caller: [callee..]}, 'removed': [..]}; mutates j"""
     baseline = load_baseline()
@@ -419,6 +592,7 @@ def inline_new_helpers(j):
                         work.append(r)
         lower_and_then(j, baseline, skip)
         lower_map_transpose(j, baseline, skip | keep)
+        lower_consumers(j, baseline, set(baseline.get('consumer_parents', [])))
     info = {'candidates': sorted(cands), 'spliced': {}, 'removed': []}
     fns = {f['path']: f for f in j['fns'] if f['label'] == 'fn'}
     # closures that are called directly (`let fail = |m| Err(..); return fail(..)`) are local helper functions: spliced at the call,
@@ -567,10 +741,19 @@ def collapse_moves(f):
             d += 1
         return l
     # the surviving local of a chain of moves carries the name a user gave to any link of the chain
-    for x in list(ren):
+    named_by_caller = set()
+    for x in sorted(ren):
         r = res(x)
-        if not f['locals'][r].get('name') and f['locals'][x].get('name'):
+        if not f['locals'][x].get('name'):
+            continue
+        if not f['locals'][r].get('name'):
             f['locals'][r]['name'] = f['locals'][x]['name']
+            if x < n0:
+                named_by_caller.add(r)
+        elif x < n0 and r >= n0 and r not in named_by_caller:
+            # the name written in the function itself (`let a1 = ..fold(..)`) rather than the one inside the spliced closure (`acc`)
+            f['locals'][r]['name'] = f['locals'][x]['name']
+            named_by_caller.add(r)
 
     def fix(x):
         if isinstance(x, dict):
@@ -588,6 +771,9 @@ def collapse_moves(f):
         b['stmts'] = [s for s in b['stmts'] if not (s['k'] in ('live', 'dead') and s['l'] in ren)]
         fix(b['stmts'])
         fix(b['term'])
+        # `X = move X` left by a chain that closes on itself (the accumulator of a lowered fold handed through the closure and back)
+        b['stmts'] = [s for s in b['stmts'] if not (s['k'] == 'assign' and not s['place']['p'] and s['rv']['k'] == 'use' and s['rv']['op'].get('k') == 'move'
+                                                   and not s['rv']['op']['place']['p'] and s['rv']['op']['place']['l'] == s['place']['l'])]
     return len(ren)
 
 
@@ -1075,6 +1261,8 @@ def thread_variants(f):
     nb = len(blocks)
 
     def transfer_stmt(s, fact):
+        if s['k'] == 'dead' and fact and s.get('l') == fact[1]:
+            return None                 # the value is gone: nothing downstream can test it
         if s['k'] != 'assign':
             return fact
         pl, rv = s['place'], s['rv']
@@ -1131,6 +1319,8 @@ def thread_variants(f):
                 nf = ('v', dl, 0 if t['dest'].get('ty', '').startswith('std::option::Option') else 1)
             elif fact and dl == fact[1]:
                 nf = None
+            elif fact and fact[0] == 'v' and any(_plain(a) and a.get('k') == 'move' and a['place']['l'] == fact[1] for a in t['args']):
+                nf = None               # consumed by another call (`opt.ok_or(..)`): the local holds nothing any more
             if t.get('target') is not None:
                 out.append(('target', t['target'], nf))
         elif k in ('drop', 'assert'):
